@@ -48,6 +48,16 @@ theorem key_phase_moves_only_by_authenticated_update_or_local_update {s s' : Sta
      ((o = .update ∨ o = .send) ∧ s.life = .est ∧ s.prev = none)) :=
   phase_change (reachable_wf hr) h hne
 
+/-- RFC 9001 6.1 ("An endpoint MUST NOT initiate a subsequent key update unless it has received an acknowledgment for a
+    packet that was sent protected with keys from the current key phase"), over ALL request sequences: a LOCAL update
+    (`force_key_update`, or the routine one when a packet is built) takes effect only if no key update - ours or the
+    peer's - has taken place yet (generation 0), or the largest acknowledged packet is one that was sent with the keys of
+    the current generation (`sentLog` is the ghost record of every packet sent with its generation) -/
+theorem local_update_only_after_current_phase_acked {s s' : State} (hr : Reachable s) {o : Op}
+    (ho : o = .update ∨ o = .send) (h : step s o = some s') (hne : s'.phase ≠ s.phase) :
+    s.cur = some 0 ∨ ∃ a g, s.largestAcked = some a ∧ s.cur = some g ∧ (a, g) ∈ s.sentLog :=
+  local_update_acked (reachable_wf hr) (reachable_ackinv hr) ho h hne
+
 /-- each packet number is processed at most once over EVERY request sequence: the packet-number space and its
     duplicate filter are shared by all generations, so at-most-once survives any number of key updates (a fortiori
     each (generation, packet number) pair is processed at most once) -/
@@ -160,5 +170,21 @@ example : (handlePacket (handlePacket init ⟨5, false, some 0, false⟩).1 ⟨3
 -- the discard rule
 example : (timeout { afterPeerUpdate with now := 974999 }).prev ≠ none ∧
     (timeout { afterPeerUpdate with now := 975000 }).prev = none := by decide
+
+-- RFC 9001 6.1: after following the peer's update and discarding the old keys a forced update is refused until a
+-- packet sent in the current phase is acknowledged (sim progress seed 3000349 / corpus K3)
+def followedPeer : List Op :=
+  [.rx ⟨0, false, some 0, false⟩, .rx ⟨1, true, some 1, false⟩, .tick 975000, .timeout]
+example : (run init (followedPeer ++ [.update])).map (fun s => (s.cur, s.prev)) = some (some 1, none) := by decide
+example : (run init (followedPeer ++ [.send, .update])).map (fun s => s.cur) = some (some 1) := by decide
+example : (run init (followedPeer ++ [.send, .ackd 0, .update])).map (fun s => (s.cur, s.firstPn)) =
+    some (some 2, some 1) := by decide
+-- an acknowledgement of a packet sent BEFORE the phase began does not count
+example : (run init ([.send] ++ followedPeer ++ [.send, .ackd 0, .update])).map (fun s => s.cur) = some (some 1) := by
+  decide
+example : (run init ([.send] ++ followedPeer ++ [.send, .ackd 1, .update])).map (fun s => s.cur) = some (some 2) := by
+  decide
+-- the first update needs no acknowledgement; the routine update obeys the same guard
+example : (run init [.update]).map (fun s => s.cur) = some (some 1) := by decide
 
 end QM.Props.C04_keyupd
